@@ -378,11 +378,29 @@ func genProp04(r *vh.Rand, name string, env EnumEnv) genDecl {
 			}
 		}
 	}
+	// a string whose pattern is one of the reader's well-known patterns
+	if gd.P.T.Kind == TStr && gd.P.T.SFormat == nil && r.Chance(8) {
+		if gd.P.T.Str == nil {
+			gd.P.T.Str = &StrRules{}
+		}
+		gd.P.T.Str.Pat = ptr(vh.Pick(r, wellKnownPatterns))
+	}
+	// optional = true on an array or a map
+	if gd.P.PK != PSingle && !gd.P.Req && gd.Class == "" && !isPrimary(gd.P) && !genAST && r.Chance(6) { // (the AST path links with protodesc, which refuses proto3_optional on a repeated field)
+		gd.P.Opt = true
+	}
 	if gd.P.Desc != "" && r.Chance(10) {
-		gd.P.Desc = vh.Pick(r, []string{"# not a description", "two  spaces", "ends with space "})
+		ds := []string{"# not a description", "two  spaces", "first line\n# second\nthird"}
+		if genAST {
+			ds = append(ds, "ends with space ") // the j5s text cannot say it
+		}
+		gd.P.Desc = vh.Pick(r, ds)
 	}
 	return gd
 }
+
+// lib/j5schema wellKnownStringPatterns
+var wellKnownPatterns = []string{`^\d{4}-\d{2}-\d{2}$`, `^\d(.?\d)?$`, "^[0-9A-Za-z]{22}$"}
 
 var descWords = []string{"the", "quick", "id", "of", "a", "thing", "x2", "value.", "(unit)"}
 
@@ -414,9 +432,6 @@ func genProp(r *vh.Rand, name string, scope string, env EnumEnv) genDecl {
 			ar := &ArrRules{Min: smallLen(r), Max: smallLen(r), Uniq: optBool(r)}
 			if ar.Min != nil && ar.Max != nil && *ar.Min > *ar.Max {
 				*ar.Min, *ar.Max = *ar.Max, *ar.Min
-			}
-			if scope != "c12" && t.Kind >= TFloat { // C04 only looks at what is read back
-				ar.Uniq = nil
 			}
 			if ar.Uniq != nil && *ar.Uniq && t.Kind >= TDate && class == "" {
 				class = "unevaluable-unique" // compiles; repeated.unique then fails on any non-empty list of messages
